@@ -145,7 +145,9 @@ CheckCase(c) ==
     [] c.ev = "schema" -> Verdict(id, "document does not validate against the shipped JSON schema: " \o c.msg, c.valid)
     [] c.ev = "reanalysis" ->    \* a subsequent error analysis of the imported object equals that of the original
          Verdict(id, "error analysis differs after the round trip",
-                 Len(c.before) = Len(c.after) /\ \A i \in DOMAIN c.before : RClose(c.after[i], c.before[i], "1/10000000000", "1/1000000000000000000000000000000"))
+                 \* up to the precision with which samples of the size of the central value are representable
+                 Len(c.before) = Len(c.after) /\ \A i \in DOMAIN c.before :
+                     RClose(c.after[i].dv, c.before[i].dv, "1/10000000000", RAdd("1/1000000000000000000000000000000", RMul("1/1000000000000", c.before[i].scale))))
     [] c.ev = "truncated" ->     \* C18: a truncated export is rejected rather than partially loaded
          Verdict(id, c.fmt \o " truncated at byte " \o c.cutinfo \o " was accepted", c.res.k = "exc")
     [] OTHER -> Verdict(id, "unknown-event", FALSE)
